@@ -204,7 +204,7 @@ def run(ctx):
     records = []
     count = {}
     combos = [(h, k) for k in KINDS for h in HELPERS if h in ACCEPTS[k]]
-    per = 12 if quick else 40
+    per = 12 if quick else 100
     for xs in seqs:
         xs = list(xs)
         for _ in range(per):
@@ -229,7 +229,7 @@ def run(ctx):
                     ctx.count((h, json.dumps(a, sort_keys=True), kind, tuple(rec["xs"]), form), len(rec["xs"]) >= 2)
     # two helpers in one aggregate() call on groups of four unsorted elements (long enough for in-place partitioning
     # or sorting by the first helper to move something): the second one is judged as if it were alone
-    for _ in range(700 if quick else 8000):
+    for _ in range(700 if quick else 30000):
         kind = rng.choice(KINDS)
         alphabet = [NAV] + list(range(-2, top - 1))
         xs = [rng.choice(alphabet) for _ in range(4)]
